@@ -437,6 +437,70 @@ def run_path_case(case: dict, stats: Stats | None = None) -> dict:
     return {"violations": viols, "log": log, "digest": digest(log)}
 
 
+PSEQ_PATHS = ["docs/a.oct.md", "dir/c.octave", "docs/new.oct.md", "dir/deep/x.md"]
+PSEQ_CALLS = ["write_content", "validate_file", "atomic", "write_changes", "cli_write", "cli_write_changes"]
+PSEQ_MUTATIONS = ["final_to_outlink", "dir_to_outlink", "final_to_dangling"]
+
+
+def run_path_seq_case(case: dict, stats: Stats | None = None) -> dict:
+    """call(P); the layout changes BETWEEN the calls (a component of P becomes a symlink); call(P) again -- in one process,
+    so a validator that remembers 'P was fine' is exposed.  Runs in a fork (replayable history)."""
+    from .common import in_fork
+
+    def child():
+        _layout_state.pop("cur", None)
+        root, _ = ensure_layout(case["variant"])
+        sb = os.path.join(root, "sb")
+        viols, logs = [], []
+        for k, st in enumerate(case["steps"]):
+            if st.get("mutate"):
+                with seam.passthrough():
+                    _mutate_layout(sb, root, case["rel"], st["mutate"])
+                _layout_state["cur"]["snap"] = snapshot_m(root)
+                _layout_state["cur"]["dirty"] = False
+            sub = {"variant": case["variant"], "path": {"rel": case["rel"], "absolute": case["absolute"]}, "call": st["call"], "kind": "path"}
+            res = run_path_case(sub, None)
+            for v in res["violations"]:
+                v["detail"] = f"step {k} ({st['call']}" + (f" after {st['mutate']}" if st.get("mutate") else "") + "): " + v["detail"]
+                if st.get("mutate"):
+                    v["signature"] += "|after-layout-change"
+            viols += res["violations"]
+            logs.append(res["log"])
+            _layout_state["cur"]["snap"] = snapshot_m(root)
+            _layout_state["cur"]["dirty"] = False
+        for v in viols:
+            v["detail"] = v["detail"].replace(root, "<R>")
+        return {"violations": viols, "log": json.loads(json.dumps(logs).replace(root, "<R>"))}
+
+    out = in_fork(child, timeout=300)
+    if stats is not None:
+        stats.inc("runs")
+        stats.inc("path_sequences")
+        stats.inc("path_calls", len(case["steps"]))
+        stats.distinct("path_seq_shapes", repr((case["rel"], [(s_["call"], s_.get("mutate")) for s_ in case["steps"]])))
+    return {"violations": out["violations"], "log": out["log"], "digest": digest(out["log"])}
+
+
+def _mutate_layout(sb, root, rel, what):
+    full = os.path.join(sb, rel)
+    if what == "final_to_outlink":
+        if os.path.lexists(full):
+            os.unlink(full)
+        os.symlink(os.path.join(root, "out", "secret.oct.md"), full)
+    elif what == "final_to_dangling":
+        if os.path.lexists(full):
+            os.unlink(full)
+        os.symlink(os.path.join(root, "out", "not-there-yet.oct.md"), full)
+    elif what == "dir_to_outlink":
+        first = os.path.join(sb, rel.split("/")[0])
+        import shutil
+
+        shutil.rmtree(first)
+        os.symlink(os.path.join(root, "out", "secretdir"), first)
+    else:
+        raise ValueError(what)
+
+
 def _linkkind(cl, root):
     for w in cl["why"]:
         if w.startswith("symlink:"):
@@ -556,7 +620,44 @@ def _schema_fn(via, name, root):
 
 
 def run_schema_case(case: dict, stats: Stats | None = None) -> dict:
-    """One schema-name string through every entry that takes a schema argument."""
+    """A SEQUENCE of schema-name look-ups served by one process that may change its working directory in between (a
+    resolver may remember earlier answers), executed in a fork of this worker so that a replay sees the same history."""
+    from .common import in_fork
+
+    steps = case.get("steps") or [{"name": case["name"], "via": case["via"], "cwd": case.get("cwd", "proj")}]
+
+    def child():
+        viols, logs, opened_any = [], [], []
+        _layout_state.pop("cur", None)
+        for k, st in enumerate(steps):
+            res = _run_schema_step({"variant": case["variant"], **st})
+            for v in res["violations"]:
+                v["detail"] = f"step {k} of {[(s_['name'], s_['cwd']) for s_ in steps]}: " + v["detail"]
+                if k:
+                    v["signature"] += "|after-earlier-lookup"
+            viols += res["violations"]
+            logs.append(res["log"])
+        root = _layout_state["cur"]["root"]
+        for v in viols:
+            v["detail"] = v["detail"].replace(root, "<R>")
+        return {"violations": viols, "log": json.loads(json.dumps(logs).replace(root, "<R>"))}
+
+    out = in_fork(child, timeout=300)
+    if stats is not None:
+        stats.inc("runs")
+        stats.inc("schema_sequences")
+        stats.inc("schema_calls", len(steps))
+        for lg in out["log"]:
+            if lg[2]:
+                stats.inc("schema_calls_that_opened_a_file")
+                stats.distinct("schema_files_opened", repr(sorted(lg[2])))
+            stats.distinct("schema_names", lg[1])
+        if len(steps) > 1 and len({s_["cwd"] for s_ in steps}) > 1:
+            stats.inc("schema_sequences_with_cwd_change")
+    return {"violations": out["violations"], "log": out["log"], "digest": digest(out["log"])}
+
+
+def _run_schema_step(case: dict) -> dict:
     root, snap0 = ensure_layout(case["variant"])
     cwd = os.path.join(root, case.get("cwd", "proj"))
     home = os.path.join(root, "home")
@@ -582,14 +683,10 @@ def run_schema_case(case: dict, stats: Stats | None = None) -> dict:
         viols.append({"clause": "R3.changed", "signature": f"R3.changed|{via}", "detail": f"schema={name!r} via {via}: tree changed {d[:4]}"})
     if a.outcome == "raised" and via == "loader":
         pass  # raising is allowed for the loader (None or exception both refuse)
-    log = [via, name, [_rel(p, root) for p in opened], _loaded(a)]
-    if stats is not None:
-        stats.inc("runs")
-        stats.inc("schema_calls")
-        if opened:
-            stats.inc("schema_calls_that_opened_a_file")
-            stats.distinct("schema_files_opened", repr(sorted(_rel(p, root) for p in opened)))
-        stats.distinct("schema_names", name)
+    log = [via, name, [_rel(p, root) for p in opened], _loaded(a), case.get("cwd")]
+    if "cur" in _layout_state:
+        _layout_state["cur"]["snap"] = snapshot_m(root)
+        _layout_state["cur"]["dirty"] = False
     return {"violations": viols, "log": log, "digest": digest(log)}
 
 
@@ -931,10 +1028,10 @@ def run_uri_case(case: dict, stats: Stats | None = None) -> dict:
 
 def run_case(case: dict, stats: Stats | None = None) -> dict:
     k = case["kind"]
-    fn = {"path": run_path_case, "schema": run_schema_case, "schema_sweep": run_schema_sweep, "frozen": run_frozen_case,
+    fn = {"path": run_path_case, "path_seq": run_path_seq_case, "schema": run_schema_case, "schema_sweep": run_schema_sweep, "frozen": run_frozen_case,
           "uri": run_uri_case}[k]
     res = fn(case, stats)
-    if k == "frozen":
+    if k in ("frozen", "schema", "path_seq"):
         return res  # executed (and masked) in a forked child
     # the per-process scratch root must never leak into logs, details or digests
     root = _layout_state["cur"]["root"]
@@ -967,10 +1064,30 @@ def gen_case(kind: str, vseed: int, j: int) -> dict:
     if kind == "path":
         c["path"] = gen_path(t)
         c["call"] = t.weighted(PATH_CALLS, "c.kind")
+    elif kind == "path_seq":
+        n_c, n_m, n_p = len(PSEQ_CALLS), len(PSEQ_MUTATIONS), len(PSEQ_PATHS)
+        x = j
+        c1, x = PSEQ_CALLS[x % n_c], x // n_c
+        c2, x = PSEQ_CALLS[x % n_c], x // n_c
+        mu, x = PSEQ_MUTATIONS[x % n_m], x // n_m
+        c["rel"], x = PSEQ_PATHS[x % n_p], x // n_p
+        c["absolute"] = bool(x % 2)
+        c["steps"] = [{"call": c1}, {"call": c2, "mutate": mu}]
+        if x >= 2:
+            c["steps"].append({"call": t.pick(PSEQ_CALLS, "ps.c3")})
     elif kind == "schema":
-        c["name"] = gen_name(t)
-        c["via"] = t.weighted([("loader", 5), ("validate", 2), ("write", 2), ("cli_validate", 1)], "s.via")
-        c["cwd"] = t.pick(["proj", "sb", "proj/specs", "home"], "s.cwd")
+        # first: ALL ordered pairs over (name that exists only in a cwd-relative directory | packaged | absent | trap) x cwd x entry
+        names = ["A", "AB", "Z9", "B_2", "META", "NOPE", "../secret"]
+        cwds = ["proj", "sb", "proj/specs", "home"]
+        vias = ["loader", "validate"]
+        n1 = len(names) * len(cwds) * len(vias)
+        if j < n1 * n1:
+            def dec(x):
+                return {"name": names[x % len(names)], "cwd": cwds[(x // len(names)) % len(cwds)], "via": vias[x // (len(names) * len(cwds))]}
+            c["steps"] = [dec(j % n1), dec(j // n1)]
+        else:
+            c["steps"] = [{"name": gen_name(t), "via": t.weighted([("loader", 5), ("validate", 2), ("write", 2), ("cli_validate", 1)], "s.via"),
+                           "cwd": t.pick(cwds, "s.cwd")} for _ in range(1 + t.choose(3, "s.n"))]
     elif kind == "frozen":
         # j enumerates ALL ordered pairs of (reference, entry point) x what happens to the cache in between
         refs = frozen_refs("<R>")
@@ -999,10 +1116,11 @@ def gen_case(kind: str, vseed: int, j: int) -> dict:
 def units(tier: str, vseed: int) -> list:
     out = []
     if tier == "quick":
-        plan = [("path", 64, 400), ("schema", 16, 250), ("frozen", 48, 250), ("uri", 4, 120)]  # 48*250 >= all 11 907 frozen pairs
+        plan = [("path", 64, 400), ("schema", 20, 250), ("frozen", 48, 250), ("uri", 4, 120),
+                ("path_seq", 4, 216)]  # all 11 907 frozen pairs, 3 136 schema pairs, 864 path sequences
         sweep_len = 4
     else:
-        plan = [("path", 1600, 800), ("schema", 320, 500), ("frozen", 200, 250), ("uri", 64, 240)]
+        plan = [("path", 1600, 800), ("schema", 320, 500), ("frozen", 200, 250), ("uri", 64, 240), ("path_seq", 16, 216)]
         sweep_len = 5
     for kind, n, per in plan:
         for i in range(n):
@@ -1117,7 +1235,7 @@ def main(tier: str, seed: int, args) -> int:
     c = stats.c
     runs = c.get("runs", 0)
     distinct = sum(len(stats.sets.get(k, ())) for k in ("path_behaviours", "frozen_behaviours", "uri_behaviours", "schema_files_opened",
-                                                        "schema_sweep_hits"))
+                                                        "schema_sweep_hits", "path_seq_shapes"))
     sweep_total = sum(len(NAME_ALPHABET) ** k for k in range(1, (4 if tier == "quick" else 5) + 1))
     coverage = {
         "evaluations": runs + c.get("schema_sweep_names", 0),
@@ -1131,6 +1249,9 @@ def main(tier: str, seed: int, args) -> int:
         "path_calls": c.get("path_calls", 0), "distinct_path_strings": len(stats.sets.get("path_strings", ())),
         "path_calls_where_refusal_was_required": c.get("nontrivial_path_calls", 0),
         "path_verdicts": dict(stats.groups.get("path_verdicts", {})), "refusal_reasons": dict(stats.groups.get("refusal_reasons", {})),
+        "path_sequences_with_layout_change_between_calls": c.get("path_sequences", 0),
+        "schema_sequences": c.get("schema_sequences", 0), "schema_sequences_with_cwd_change": c.get("schema_sequences_with_cwd_change", 0),
+        "frozen_sequences": c.get("frozen_sequences", 0),
         "schema_calls": c.get("schema_calls", 0), "distinct_schema_names_sampled": len(stats.sets.get("schema_names", ())),
         "schema_sweep": {"alphabet": NAME_ALPHABET, "max_length": 4 if tier == "quick" else 5, "names": c.get("schema_sweep_names", 0),
                          "names_total": sweep_total, "exhaustive_over_alphabet": c.get("schema_sweep_names", 0) == sweep_total,
